@@ -134,5 +134,10 @@ theorem rs_consume_sim (c : UInt8) : Sim (Rs.PgnRawParser.consume rd (byteI c)) 
         rw [if_neg this, if_neg hbc]
         exact sim_get_bind (fun g => sim_pure rfl)
 
+#print axioms rs_peek_byte_eq
+#print axioms rs_pop_byte_eq
+#print axioms rs_skip_byte_eq
+#print axioms rs_consume_sim
+
 end
 end Inkayaku.Translated
